@@ -54,6 +54,12 @@ def gen_bitstream(rng, count, exhaustive_pairs=True):
             while left > 0:
                 w = min(left, rng.randint(1, 32)); ops.append("r %d" % w); left -= w
         if rng.random() < 0.2: ops += ["ws", "w 1 1"] if cap >= 1 else []
+        if rng.random() < 0.35:
+            # the buffers' comparison operators: snapshot, then rewrite the same / a slightly different content and compare
+            w0 = min(cap, 8); same = rng.random() < 0.4
+            v0 = rng.randrange(1 << w0); v1 = v0 if same else v0 ^ (1 << rng.randrange(w0))
+            tailw = min(cap - w0, 16); tv = rng.randrange(1 << tailw) if tailw else 0; tv2 = tv if (same or rng.random() < 0.5) else tv ^ 1
+            ops += ["ws", "w %d %d" % (w0, v0)] + (["w %d %d" % (tailw, tv)] if tailw else []) + ["snap", "eq", "ws", "w %d %d" % (w0, v1)] + (["w %d %d" % (tailw, tv2)] if tailw else []) + ["eq"]
         lines.append("bs %d : %s" % (cap, " ; ".join(ops)))
     return lines
 
